@@ -43,6 +43,8 @@ pub struct HxCfg {
     pub clone_swap: bool,
     pub reload_swap: bool,
     pub merges: Vec<u8>,
+    /// fixed trees merged together with a stray vertex: the call must fail (Op::MergeFail)
+    pub merge_fails: Vec<u8>,
     pub max_depth: usize,
     pub max_states: usize,
     pub wall: Duration,
@@ -68,6 +70,7 @@ impl HxCfg {
             clone_swap: false,
             reload_swap: false,
             merges: vec![],
+            merge_fails: vec![],
             max_depth: usize::MAX,
             max_states: 30_000_000,
             wall: Duration::from_secs(40),
@@ -116,6 +119,11 @@ impl HxCfg {
                 ops.push(Op::Merge(*k, *v));
             }
         }
+        for k in &self.merge_fails {
+            for v in &self.ids {
+                ops.push(Op::MergeFail(*k, *v));
+            }
+        }
         ops
     }
 
@@ -136,6 +144,7 @@ impl HxCfg {
             if self.max_depth == usize::MAX { "to closure".to_string() } else { format!("depth {}", self.max_depth) },
             self.probe_names().join(" ")
         ) + &if self.merges.is_empty() { String::new() } else { format!(" merges {:?}", self.merges) }
+            + &if self.merge_fails.is_empty() { String::new() } else { format!(" failing merges {:?}", self.merge_fails) }
             + &if self.seeds.is_empty() { String::new() } else { format!(" seeds {:?}", self.seeds.iter().map(|s| s.0.clone()).collect::<Vec<_>>()) }
     }
 
@@ -530,8 +539,26 @@ pub fn check_transition<const N: usize>(
             Op::CloneSwap => vec!["C10", "C07"],
             Op::ReloadSwap => vec!["C08", "C07"],
             Op::Merge(..) => vec!["C11", "C07"],
+            Op::MergeFail(..) => vec!["C12", "C07"],
         };
         out.push(Finding { kind: format!("panic-{}", op_name(op)), tags, detail: format!("{} is within the limits but panicked: {e}", op.text()), aux: None });
+        return out;
+    }
+    // 1a. a merge that has to be refused: Err, and nothing that was there may be gone; the model has
+    // taken over whatever the left graph holds now, so there is nothing else to compare here
+    if let Op::MergeFail(..) = op {
+        if let Ok(Ret::Merge(Ok(()))) = res {
+            out.push(Finding::new("merge-ok-although-stray-vertex", &["C12"], format!("{} returned Ok although the right graph holds a present vertex that cannot be reached from `right`", op.text())));
+            return out;
+        }
+        for e in model_errs {
+            out.push(Finding { kind: "state-after-refused-merge-unreadable".to_string(), tags: vec![], detail: e.clone(), aux: None });
+        }
+        let keys = guarded(|| crate::real::keys_sorted(g1)).unwrap_or_default();
+        let lost: Vec<usize> = m0.keys().into_iter().filter(|v| !keys.contains(v)).collect();
+        if !lost.is_empty() {
+            out.push(Finding { kind: "early-collection-by-merge".to_string(), tags: vec!["C01", "C02"], detail: format!("{} (refused) removed {lost:?}: only a first read of a datum may remove vertices", op.text()), aux: None });
+        }
         return out;
     }
     // 2. model-side complaints (next_id freshness, merge structure)
@@ -702,8 +729,30 @@ pub fn op_name(op: &Op) -> &'static str {
         Op::AddNext => "add_next",
         Op::CloneSwap => "clone",
         Op::ReloadSwap => "reload",
-        Op::Merge(..) => "merge",
+        Op::Merge(..) | Op::MergeFail(..) => "merge",
     }
+}
+
+/// The model takes over the present vertices of the real graph as they are (Op::MergeFail): edges,
+/// datum, read status and group tag of every present vertex, from the snapshot hook.
+pub fn adopt_real_state<const N: usize>(g: &Sodg<N>, m: &mut Model) -> Result<(), String> {
+    let s = guarded(|| g.verif_snapshot())?;
+    let mut observed = BTreeMap::new();
+    for (id, v) in s.vertices.iter().enumerate() {
+        let Some(v) = v else { continue };
+        if v.branch == 0 {
+            continue;
+        }
+        let mut edges = vec![];
+        for (l, t) in &v.edges {
+            let li = (0u8..=60).find(|i| lab(*i) == *l).ok_or_else(|| format!("ν{id} has an edge labelled {l}, which is not in the menu"))?;
+            edges.push((li, *t));
+        }
+        let data = if v.persistence == 0 { None } else { Some((0u8..=255).find(|d| dat_bytes(*d) == v.data).ok_or_else(|| format!("ν{id} holds bytes {:?}, which are not in the menu", v.data))?) };
+        observed.insert(id, (edges, data, v.persistence == 1, if v.branch >= 2 { Some(v.branch) } else { None }));
+    }
+    m.adopt_observed(observed);
+    Ok(())
 }
 
 /// One step of implementation and model together, without judging it (used
@@ -718,7 +767,8 @@ pub fn step_nocheck<const N: usize>(g: &mut Sodg<N>, m: &mut Model, op: &Op) -> 
             let gr: &Sodg<N> = g;
             let _ = m.apply_merge(&fixed_tree(*k), *left, &|gl, a| guarded(|| gr.kid(gl, lab(a))).ok().flatten(), &mut errs);
         }
-        (Op::NextId | Op::AddNext | Op::Merge(..), _) => return Err(format!("{} did not return what it returned before", op.text())),
+        (Op::MergeFail(..), Ret::Merge(Err(_))) => adopt_real_state(g, m)?,
+        (Op::NextId | Op::AddNext | Op::Merge(..) | Op::MergeFail(..), _) => return Err(format!("{} did not return what it returned before", op.text())),
         _ => {
             m.apply(op);
         }
@@ -793,7 +843,12 @@ pub fn step<const N: usize>(labels: &[u8], g: &mut Sodg<N>, m: &mut Model, op: &
             let gr: &Sodg<N> = g;
             let _ = m.apply_merge(&fixed_tree(*k), *left, &|gl, a| guarded(|| gr.kid(gl, lab(a))).ok().flatten(), &mut errs);
         }
-        (Op::NextId | Op::AddNext | Op::Merge(..), _) => {}
+        (Op::MergeFail(..), Ok(Ret::Merge(Err(_)))) => {
+            if let Err(e) = adopt_real_state(g, m) {
+                errs.push(format!("cannot take over the state after the refused merge: {e}"));
+            }
+        }
+        (Op::NextId | Op::AddNext | Op::Merge(..) | Op::MergeFail(..), _) => {}
         (_, Ok(_)) => ex = m.apply(op),
         (_, Err(_)) => {}
     }
@@ -893,6 +948,7 @@ fn count_transition(c: &mut BTreeMap<&'static str, u64>, m0: &Model, op: &Op, ex
             }
         }
         Op::Merge(..) => bump(c, "merges"),
+        Op::MergeFail(..) => bump(c, "refused_merges"),
     }
 }
 
